@@ -6,6 +6,7 @@ raise no alarm.
 """
 import io
 import os
+import re
 import subprocess
 
 import bumpver.hooks as bvhooks
@@ -184,10 +185,24 @@ class FakeVCS:
                 entry["ok"] = True
                 return 128, b"", b"fatal: no upstream configured for branch 'main'"
         elif name == "ls_branches":
-            if self.remote == "upstream":
-                out = b"  dev    1234567 [origin/dev] other\n* main   89abcde [origin/main] bump\n"
+            # `git branch -vv` ends each line with the SUBJECT of the branch's last commit - after a commit made through this fake that
+            # is the first line of its message (real git prints exactly that; a subject like "[ci/skip] ..." looks like an upstream)
+            subject = self.last_subject()
+            rows = [(" ", "dev", "1234567", "origin/dev", "other"), ("*", "main", "89abcde", "origin/main", subject)] if self.remote == "upstream" \
+                else [("*", "main", "89abcde", "", subject)]
+            fmt = next((a[len("--format="):] for a in argv if a.startswith("--format=")), None)
+            if fmt is None:
+                # -vv layout: "<HEAD> <name> <hash> [<upstream>] <subject>" / without upstream "<HEAD> <name> <hash> <subject>"
+                text = "".join(f"{h} {n:6s} {o} " + (f"[{u}] " if u else "") + sub + "\n" for h, n, o, u, sub in rows)
             else:
-                out = b"* main   89abcde bump\n"
+                def render(row):
+                    h, n, o, u, sub = row
+                    table = {"HEAD": h, "refname:short": n, "refname": "refs/heads/" + n, "objectname:short": o, "objectname": o + "0" * 33,
+                             "upstream:short": u, "upstream": ("refs/remotes/" + u) if u else "", "upstream:remotename": u.split("/")[0] if u else "",
+                             "subject": sub, "contents:subject": sub}
+                    return re.sub(r"%\(([^)]*)\)", lambda m: table.get(m.group(1), ""), fmt)
+                text = "".join(render(r) + "\n" for r in rows)
+            out = text.encode("utf-8", "replace")
         elif name == "show_remotes":
             if self.remote in ("upstream", "url"):
                 out = b"git@example.invalid:demo/demo.git\n" if self.kind == "git" else b"default = https://example.invalid/demo\n"
@@ -235,6 +250,21 @@ class FakeVCS:
         return FakeProc(rc, out, err)
 
     # -- helpers ---------------------------------------------------------------------------------
+    def last_subject(self):
+        for e in reversed(self.log):
+            if e["type"] == "cmd" and e["name"] == "commit" and e.get("ok"):
+                argv = e["argv"]
+                msg = None
+                for flag in ("--message", "-m"):
+                    if flag in argv and argv.index(flag) + 1 < len(argv):
+                        msg = argv[argv.index(flag) + 1]
+                if msg is None and e.get("logfile_content"):
+                    msg = e["logfile_content"].decode("utf-8", "replace")
+                if msg is not None:
+                    lines = [l for l in msg.split("\n") if l.strip()]
+                    return lines[0].strip() if lines else ""
+        return "bump"
+
     def effects(self):
         return [e for e in self.log if e["type"] == "hook" or e["kind"] == "effect"]
 
@@ -268,7 +298,7 @@ case "$1" in
   status) cat "$FAKE_DIR/status.txt" ;;
   tag) case " $* " in *" --list "*|*" -l "*) case " $* " in *" --merged "*) cat "$FAKE_DIR/tags_merged.txt" ;; *) cat "$FAKE_DIR/tags_all.txt" ;; esac ;; esac ;;
   for-each-ref) cat "$FAKE_DIR/tags_all.txt" ;;
-  branch) cat "$FAKE_DIR/branches.txt" ;;
+  branch) case " $* " in *" --format="*) cat "$FAKE_DIR/branches_fmt.txt" ;; *) cat "$FAKE_DIR/branches.txt" ;; esac ;;
   config) if [ -s "$FAKE_DIR/remote.txt" ]; then cat "$FAKE_DIR/remote.txt"; else exit 1; fi ;;
   *) : ;;
 esac
@@ -296,6 +326,8 @@ def path_fake_setup(fake_dir, bin_dir, tags_all=(), tags_merged=None, status=(),
     w("tags_merged.txt", tags_all if tags_merged is None else tags_merged)
     w("status.txt", status)
     w("branches.txt", ["  dev    1234567 [origin/dev] other", "* main   89abcde [origin/main] bump"] if remote == "upstream" else ["* main   89abcde bump"])
+    # (the executable does not interpret --format; it serves what the format in use - HEAD name hash [upstream] - prints)
+    w("branches_fmt.txt", ["  dev 1234567 [origin/dev]", "* main 89abcde [origin/main]"] if remote == "upstream" else ["* main 89abcde []"])
     w("remote.txt", ["git@example.invalid:demo/demo.git"] if remote in ("upstream", "url") else [])
     open(os.path.join(fake_dir, "argv.log"), "w").close()
 
